@@ -10,6 +10,8 @@ open C17_zu
 (* ------------------------------------------------------------------------------------------ *)
 (* case text                                                                                    *)
 (* ------------------------------------------------------------------------------------------ *)
+let const1d = ref false   (* --const1d: read-only 1-D views can be saved on this tree (compile probe), generate them *)
+
 type elemv = K of int | Nst of int * int * int list          (* nested: requested lo hi, values *)
 
 type dimop = OpI of int | OpR of int * int * int
@@ -340,7 +342,7 @@ let gen_view id : case =
   if dspec.transp || dspec.rots > 0 then bump "view_dst_permuted";
   if List.exists (function OpR (_, _, st) -> st > 1 | _ -> false) dspec.ops then bump "view_dst_strided";
   if List.exists (function OpI _ -> true | _ -> false) dspec.ops then bump "view_dst_indexed";
-  let sconst = d >= 2 && chance 30 in
+  let sconst = (d >= 2 || !const1d) && chance 30 in
   if sconst then bump "view_saved_through_const_subarray";
   { empty_case with id; kind = "view"; arch; elem; s; d = dspec; sconst }
 
@@ -362,6 +364,7 @@ let () =
   (match cmd with
    | "gen" ->
        let prefix = get "--prefix" "c" args in
+       const1d := List.mem "--const1d" args;
        for k = 1 to count do
          let c = gen_case (Printf.sprintf "%s%d" prefix k) in
          Buffer.add_string prog (case_text c)
